@@ -160,7 +160,7 @@ def pair_adts(base_adts, cur_adts):
             continue
         fr, vr = {}, {}
         for vb, vc in zip(b["variants"], c["variants"]):
-            if vb["name"] != vc["name"]:
+            if vb["name"] != vc["name"] and b.get("kind") == "enum":
                 vr[vc["name"]] = vb["name"]
             if len(vb["fields"]) != len(vc["fields"]):
                 continue
@@ -187,6 +187,7 @@ def module_votes(base_paths, cur_paths):
     for n in new:
         by_base.setdefault(base_name(n), []).append(n)
     votes = {}
+    items = {base_name(p) for p in base_paths} | {base_name(p) for p in cur_paths}
     for m in missing:
         tm = IDENT.findall(m)
         for n in by_base.get(base_name(m), []):
@@ -197,7 +198,7 @@ def module_votes(base_paths, cur_paths):
             if len(diff) == 1:
                 (o, nw), = diff
                 # a module segment: lower-case by convention, never the item's own name
-                if nw != base_name(n) and nw == nw.lower():
+                if nw not in items and o not in items and nw == nw.lower():
                     votes.setdefault(nw, {}).setdefault(o, 0)
                     votes[nw][o] += 1
     return {nw: max(os_, key=os_.get) for nw, os_ in votes.items() if len(os_) == 1 and sum(os_.values()) >= 2}
